@@ -775,7 +775,6 @@ mod u7 {
     inst!(copy_str1, copy_post(Sh::Str1, IF));
     inst!(copy_str2, copy_post(Sh::Str2, IF));
     inst!(copy_struct2, copy_post(Sh::Struct2, IF));
-    inst!(copy_struct2_ba, copy_post(Sh::Struct2, BA));
     inst!(copy_closure, copy_post(Sh::Struct2, AI));
     inst!(copy_struct_str, copy_post(Sh::StructStr, IF));
     inst!(copy_var_scalar, copy_post(Sh::VarScalar, BA));
@@ -789,17 +788,15 @@ mod u7 {
     inst!(copy_nest_arr, copy_post(Sh::NestArr, IF));
 
     inst!(spawn_0, spawn_case(0, [Sh::Scalar, Sh::Scalar]));
-    inst!(spawn_scalar, spawn_case(1, [Sh::Scalar, Sh::Scalar]));
+    inst!(spawn_scalar_struct_str, spawn_case(2, [Sh::Scalar, Sh::StructStr]));
     inst!(spawn_str_struct, spawn_case(2, [Sh::Str1, Sh::Struct2]));
     inst!(spawn_var_scalar, spawn_case(2, [Sh::VarStruct, Sh::Scalar]));
-    inst!(spawn_arr, spawn_case(1, [Sh::Arr(2), Sh::Scalar]));
     inst!(spawn_arr_str, spawn_case(2, [Sh::Arr(1), Sh::Str1]));
 
     inst!(fifo_one_scalar, fifo_one(Sh::Scalar, Sh::Scalar));
     inst!(fifo_one_str_struct, fifo_one(Sh::Str1, Sh::Struct2));
     inst!(fifo_two_scalar, fifo_two(Sh::Scalar, Sh::Scalar));
     inst!(fifo_two_str_struct, fifo_two(Sh::Str1, Sh::Struct2));
-    inst!(fifo_two_struct_str, fifo_two(Sh::StructStr, Sh::Str2));
     inst!(fifo_two_arr, fifo_two(Sh::Arr(1), Sh::Scalar));
 
     inst!(ownership_drop_str, ownership_drop(Sh::Str1));
